@@ -234,11 +234,18 @@ package sonic
 //@   prop C13
 //@   requires len(network) >= 3
 //@   ensures [no-leak] result1 != nil ==> (forall k :: FDOPEN[k] == old(FDOPEN[k]))
+//@   // success hands out a listener whose descriptor is open
+//@   remember after call internal.Listen: made = result2 == nil
+//@   remember after call internal.Listen: nfd := result0
+//@   ensures [opened] result1 == nil ==> made && FDOPEN[nfd] == 1 && result0 != nil
 
 //@ func DialTimeout
 //@   prop C13
 //@   requires len(network) >= 3
 //@   ensures [no-leak] result1 != nil ==> (forall k :: FDOPEN[k] == old(FDOPEN[k]))
+//@   remember after call ConnectTimeout: made = result3 == nil
+//@   remember after call ConnectTimeout: nfd := result0
+//@   ensures [opened] result1 == nil ==> made && FDOPEN[nfd] == 1 && result0 != nil
 
 // accept(2) hands out a new descriptor on success only
 //@ func ext:syscall.Accept
